@@ -330,6 +330,35 @@ def main():
         for u in unchecked[:10]:
             print('UNDECIDED-BY-PROOF property=%s reason=function %s was not checked by the verifier' % (pid, u))
         rc = 2
+    c17 = None
+    if pid == 'C17' and rc != 1:
+        # clauses no contract can reach (colour-string parsing, SVG text): bounded stand-in on the real wasm.rs,
+        # compiled natively in a scratch copy (labelled bounded, never counted as proved)
+        try:
+            import native_c17
+            c17 = native_c17.run()
+        except Exception as e:
+            c17 = {'ok': None, 'reason': repr(e), 'failures': [], 'cmd': '', 'evaluations': 0}
+        if c17['ok'] is False:
+            known_c17 = [kf for kf in known if kf['property'] == 'C17' and kf['obligation'].startswith('native::')]
+            new_f = [f for f in c17['failures'] if not any(kf['obligation'] == 'native::' + f.split(' :: ')[0] and kf['site'] in f for kf in known_c17)]
+            for kf in known_c17:
+                if any(kf['obligation'] == 'native::' + f.split(' :: ')[0] and kf['site'] in f for f in c17['failures']):
+                    print('KNOWN-FINDING: property=C17 %s %s %s' % (kf['obligation'], kf['site'], kf['what']))
+            if new_f:
+                os.makedirs(os.path.join(VERIF, 'replays'), exist_ok=True)
+                import hashlib
+                replay_path = os.path.join(VERIF, 'replays', 'C17-native-%s.json' % hashlib.sha1(new_f[0].encode()).hexdigest()[:12])
+                json.dump({'property': 'C17', 'decided_by': 'bounded native harness native/c17_harness.rs on the real wasm.rs (scratch copy)',
+                           'failed_obligations': [{'obligation': 'native::' + f.split(' :: ')[0], 'message': f.split(' :: ', 1)[1]} for f in new_f[:20]],
+                           'input': {'clause': new_f[0].split(' :: ')[0], 'observed': new_f[0].split(' :: ', 1)[1]}, 'native_cmd': c17['cmd']}, open(replay_path, 'w'), indent=1)
+                for f in new_f[:5]:
+                    print('FAILED-OBLIGATION property=C17 native::%s' % f)
+                print('VIOLATION property=C17 replay=%s' % replay_path)
+                violations = [('native::' + f.split(' :: ')[0], {'fn': None, 'msg': f}) for f in new_f]
+                rc = 1
+        elif c17['ok'] is None:
+            print('NOTE property=C17 bounded native harness unavailable in this tree: %s' % c17.get('reason'))
     thorough = None
     if rc == 0 and a.tier == 'thorough':
         # (1) vacuity guard: `assert(false)` injected at the entry of every verified function and at the top of
@@ -400,6 +429,7 @@ def main():
             **({'evaluations': bounded['summary'].get('builds', 0), 'distinct_nontrivial': bounded['summary'].get('distinct_cases', 0),
                 'rule': 'BOUNDED stand-in (never counted as proved): ' + bounded['bound'] + '; a case is one (payload, level, version, mask, mode) tuple, distinct by that tuple; every case is a full build checked clause by clause against the plain-Rust transcription of the ISO model'} if bounded is not None else {}),
             'thorough_extras': thorough,
+            'c17_bounded_native_harness': c17,
             'bounded_stand_in': ({'used_because': [t['msg'] + ' @' + str(t['fn']) for t in tool_mine[:10]] + unchecked[:10], 'cmd': bounded['cmd'], 'bound': bounded['bound'], 'summary': bounded['summary'], 'wall_s': bounded['wall_s'], 'cached': bounded['cached']} if bounded is not None else None),
             'obligations': n_ob, 'discharged': n_discharged,
             'checker_cmd': res['cmd'],
